@@ -199,25 +199,28 @@ func (c *client) Execute(
 	if c.atpVersion <= 1 {
 		return c.executeLegacy(stepData, workStartMsg, cborReader)
 	}
-	if c.atpVersion > 1 {
-		// Wrap it in a runtime message.
-		workStartMsg = RuntimeMessage{RunID: stepData.RunID, MessageID: MessageTypeWorkStart, MessageData: workStartMsg}
-		// Handle signals to the step
-		if signalsToStep != nil {
-			c.wg.Add(1)
-			go func() {
-				defer c.wg.Done()
-				c.executeWriteLoop(stepData.RunID, signalsToStep)
-			}()
-		}
-		// Setup channels for ATP v2
-		err := c.prepareResultChannels(cborReader, stepData, signalsFromStep)
-		if err != nil {
-			return NewErrorExecutionResult(err)
-		}
+	// Wrap it in a runtime message.
+	workStartMsg = RuntimeMessage{RunID: stepData.RunID, MessageID: MessageTypeWorkStart, MessageData: workStartMsg}
+	// Handle signals to the step
+	if signalsToStep != nil {
+		c.wg.Add(1)
+		go func() {
+			defer c.wg.Done()
+			c.executeWriteLoop(stepData.RunID, signalsToStep)
+		}()
+	}
+	// Setup channels for ATP v2
+	err := c.prepareResultChannels(cborReader, stepData, signalsFromStep)
+	if err != nil {
+		return NewErrorExecutionResult(err)
 	}
 	if err := c.sendCBOR(workStartMsg); err != nil {
 		c.logger.Errorf("Step '%s' failed to write start work message: %v", stepData.ID, err)
+		// The peer never heard of this run, so no result will come for it. Forget the entry prepared above: a pending
+		// entry keeps the read loop, and with it Close, waiting for a result.
+		c.mutex.Lock()
+		delete(c.runningStepResultEntries, stepData.RunID)
+		c.mutex.Unlock()
 		return NewErrorExecutionResult(fmt.Errorf("failed to write work start message (%w)", err))
 	}
 	c.logger.Debugf("Step '%s' started, waiting for response...", stepData.ID)
@@ -264,10 +267,15 @@ func (c *client) Close() error {
 			if waitedGracefully {
 				return fmt.Errorf("client with step '%s' failed to write client done message with error: %w",
 					c.getRunningStepIDs(), err)
-			} else {
-				panic(fmt.Errorf("potential deadlock after client with step '%s' failed to write client done message with error: %w",
-					c.getRunningStepIDs(), err))
 			}
+			// The peer could not be told that we are done and did not end the stream on its own account. Closing the
+			// channel is the only way left to wake a read loop that is blocked reading from it.
+			closeErr := c.rawAtpChannels.Close()
+			if !waitWithTimeout(time.Second*5, &c.wg) {
+				c.logger.Errorf("ATP client goroutines did not stop after closing the channel (close error: %v)", closeErr)
+			}
+			return fmt.Errorf("client with step '%s' failed to write client done message with error: %w",
+				c.getRunningStepIDs(), err)
 		}
 	}
 	c.wg.Wait()
